@@ -289,9 +289,9 @@ func TestVerifC13Start(t *testing.T) {
 	log.Info("warm up the logger outside the bubble")
 	schedQuiet()
 	sched.StartWatchdog(90 * time.Second)
-	bound := 1
+	bound := 2
 	if ev.Thorough() {
-		bound = 2
+		bound = 3
 	}
 	scs := c13Scenarios(ev.Thorough())
 	e := sched.NewExplorer(t, bound)
